@@ -16,3 +16,8 @@ import Skv.Props.C17
 #print axioms C17_signal_releases
 #print axioms C17_released_committer_returns
 #print axioms C17_late_registration_loses_wakeup
+#print axioms C17_liveness_invariant
+#print axioms C17_pipeline_progress
+#print axioms PState.run_append
+#print axioms C17_effective_steps_bounded
+#print axioms C17_all_calls_return
